@@ -161,7 +161,19 @@ def _rounding(db, chk, rule="C01.R3-rounding"):
         if not isinstance(f, Frame):
             continue
         if not f.cols:
-            continue   # early-return paths (integer timestamps / rounding disabled) leave the frame untouched
+            # an early-return path leaves the frame untouched: acceptable only because ts is not float64, or because rounding was switched off by the option
+            reasons = []
+            for p_ in r.path:
+                txt = T.show(p_)
+                if "dtype(" in txt and "!= 0" in txt:
+                    reasons.append("ts is not float64")
+                if "HTA_DISABLE_NS_ROUNDING" in txt and ("== '1'" in txt or "truthy" in txt):
+                    reasons.append("rounding disabled by option")
+            other = [T.show(p_)[:100] for p_ in r.path if "dtype(" not in T.show(p_) and "HTA_DISABLE_NS_ROUNDING" not in T.show(p_)]
+            chk.ob(rule, "timestamps are left unrounded only when they are not floats or rounding is disabled by the option", bool(reasons) and not other, where,
+                   found={"path": [T.show(p_)[:100] for p_ in r.path]}, accepted="ts.dtype != float64, or HTA_DISABLE_NS_ROUNDING set",
+                   why="any data-dependent shortcut (e.g. 'all starts are whole numbers') skips the inward rounding of fractional durations: end stays fractional", nontrivial=False)
+            continue
         rounded += 1
         ts, end, dur = f.col("ts"), f.col("end"), f.col("dur")
         strip = lambda t: t[2] if isinstance(t, tuple) and t and t[0] == "aligned" else t
